@@ -148,7 +148,7 @@ def run(ctx):
     guards = []
     for n in ast.walk(it.node):
         if isinstance(n, ast.If):
-            t = inline_simple_calls(base, n.test)
+            t = inline_simple_calls(base, n.test, cls=it.cls)
             if "voidElements" in norm(t):
                 g = _copy.copy(n)
                 g.test = t
@@ -351,12 +351,57 @@ def run(ctx):
         r.check("R11.5", set(sc) == set("\t\n\x0c\r "), "space-set", "treewalkers/base.py", "walker white space is %r" % sc)
     clark_names(ctx)
     void_agreement(ctx)
+    void_children_reported(ctx)
     from . import wslint
     wslint.run(ctx, "R11.8")
     # R11.9: the etree walker splits every attribute key with the Clark-notation pattern; a plain name the builder stored
     # verbatim that begins with `{..}` comes out as a namespaced (possibly empty) name, which Lint rejects
     from .c04 import representation_limits
     representation_limits(ctx, None, "R11.9")
+
+
+def void_children_reported(ctx):
+    """R11.10: a void element that has children in the tree (the parser makes some: <event-source>x) is written as an EmptyTag and
+    an error token reports that its content is dropped.  emptyTag() is told whether there are children by its last argument: the
+    value that reaches the call is the one unpacked from the node's details, not one the walker has already reset (the reset,
+    which stops the descent, comes after the call)."""
+    r = ctx.r
+    r.rule("R11.10", "the has-children flag given to emptyTag is the node's own, not an already reset one", floor=1)
+    it = ctx.repo.func("treewalkers/base.py", "NonRecursiveTreeWalker.__iter__")
+    cfg = CFG(it.node)
+    calls = [c for c in ast.walk(it.node) if isinstance(c, ast.Call) and norm(c.func) == "self.emptyTag"]
+    if len(calls) != 1:
+        r.idiom("R11.10", False, "emptyTag-flag", it.where, "the emptyTag call of the walker loop was not found")
+        return
+    c = calls[0]
+    arg = c.args[3] if len(c.args) >= 4 else next((k.value for k in c.keywords if k.arg == "hasChildren"), None)
+    if not isinstance(arg, ast.Name):
+        r.idiom("R11.10", False, "emptyTag-flag", "treewalkers/base.py:%d" % c.lineno, "the has-children argument of emptyTag is not a local",
+                wrong=[(arg is None or (isinstance(arg, ast.Constant) and arg.value is False),
+                        "emptyTag is called without the has-children flag (or with a constant False): a void element with children is dropped "
+                        "silently, no error token is produced")])
+        return
+    v = arg.id
+    sites = cfg.locate(c)
+
+    def stores_v(n):
+        return n.kind in ("stmt", "loopiter") and any(isinstance(x, ast.Name) and x.id == v and isinstance(x.ctx, ast.Store) for x in ast.walk(n.ast)
+                                                     if not isinstance(x, (ast.FunctionDef, ast.Lambda)))
+    par = cfg.reach_backward(sites, stores_v)
+    # the stores that reach the call: predecessors of the explored region that store v
+    reaching = []
+    seen = set(par) | {s_.id for s_ in sites}
+    for n in cfg.nodes:
+        if stores_v(n) and any(m.id in seen for m, _lab in n.succ):
+            reaching.append(n)
+    consts = [n for n in reaching if isinstance(n.ast, ast.Assign) and isinstance(n.ast.value, ast.Constant)]
+    unpack = [n for n in reaching if isinstance(n.ast, ast.Assign) and isinstance(n.ast.targets[0], (ast.Tuple, ast.List)) and "details" in norm(n.ast.value)]
+    r.idiom("R11.10", bool(unpack) and len(unpack) == len(reaching), "emptyTag-flag", "treewalkers/base.py:%d" % c.lineno,
+            "what reaches the has-children argument of emptyTag was not recognised: %s" % [norm(n.ast)[:50] for n in reaching],
+            wrong=[(bool(consts), "`%s` reaches the emptyTag call already reset (`%s`): the \"Void element has children\" error token is never "
+                                  "produced, the children of a void element (<event-source>text) are dropped without any report" % (
+                                      v, norm(consts[0].ast) if consts else ""))],
+            detail={"reaching": [norm(n.ast)[:60] for n in reaching]})
 
 
 def void_agreement(ctx):
